@@ -302,6 +302,26 @@ def real_part(ctx, quick):
         for k in range(len(pats), len(pats) + 3):
             if ("h%d: out-h%d" % (k, k)) not in o.decode("latin-1"):
                 problems.append((case, "h%d: out-h%d" % (k, k), errt[-200:], "healthy host h%d did not get its output relayed" % k)); break
+    # R1c: eighty slow hosts in flight at once under a soft descriptor limit of 128 (hard limit high: pdsh raises its own limit):
+    #      every host keeps two descriptors while it runs; none may be refused for want of descriptors
+    for rep in range(1 if quick else 3):
+        import resource, subprocess
+        def pre():
+            hard = resource.getrlimit(resource.RLIMIT_NOFILE)[1]
+            resource.setrlimit(resource.RLIMIT_NOFILE, (128, hard))
+        try:
+            p = subprocess.run([os.path.join(real.dir, "bin", "pdsh"), "-R", "exec", "-f", "80", "-u", "20", "-w", "h[1-80]", "sh", "-c", "sleep 1; echo out-%h"],
+                               env={"PATH": "/usr/bin:/bin", "HOME": "/root", "LANG": "C"}, stdout=subprocess.PIPE, stderr=subprocess.PIPE, timeout=60, preexec_fn=pre)
+            rc, o, e = p.returncode, p.stdout, p.stderr
+        except subprocess.TimeoutExpired:
+            rc, o, e = -999, b"", b""
+        nruns += 1
+        case = {"transport": "exec", "hosts": 80, "fanout": 80, "soft_descriptor_limit": 128}
+        lines = set(o.decode("latin-1").split("\n"))
+        lost = [k for k in range(1, 81) if ("h%d: out-h%d" % (k, k)) not in lines]
+        if rc == -999 or lost:
+            problems.append((case, "output of all 80 hosts", "%d hosts without output (e.g. h%s); stderr %r" % (len(lost), lost[:1], e[-200:]),
+                             "%d of 80 healthy hosts did not get their command run (80 slow hosts in flight, soft descriptor limit 128)" % len(lost)))
     # R2: rsh over loopback: one daemon never acknowledges (hang while connecting), connect timeout 1
     try:
         socks = _rsh_server([("127.7.3.1", "ok"), ("127.7.3.2", "hang"), ("127.7.3.3", "ok"), ("127.7.3.4", "reset"), ("127.7.3.5", "closeearly")])
